@@ -131,7 +131,7 @@ def payload_split_axiom(ctx: Ctx, a: SymBytes, k) -> None:
 # ------------------------------------------------------------------------------ truthiness
 def truth(ctx: Ctx, v, label="truth"):
     """python truthiness as python bool or z3 Bool (no forking)"""
-    if v is None:
+    if v is None or type(v).__name__ == "Bottom":
         return False
     if isinstance(v, bool):
         return v
@@ -240,6 +240,8 @@ def any_split(ctx: Ctx, v: SymAny, label="anytag"):
 # ------------------------------------------------------------------------------ equality
 def eq(ctx: Ctx, a, b):
     """python == as python bool or z3 Bool.  Never forks."""
+    if type(a).__name__ == "Bottom" or type(b).__name__ == "Bottom":
+        return False
     if not is_sym(a) and not is_sym(b) and not isinstance(a, (SObj, PList, PDict)) and not isinstance(
         b, (SObj, PList, PDict)
     ):
@@ -472,6 +474,8 @@ def identical(ctx: Ctx, a, b):
 def binop(ctx: Ctx, op, a, b):
     if isinstance(a, SymAny) or isinstance(b, SymAny):
         raise Unsupported("arithmetic on Any")
+    if isinstance(a, SymReal) or isinstance(b, SymReal):
+        return SymReal(ctx.fresh("real", z3.RealSort()))
     num = (int, float, SymInt, SymBool, bool)
     if isinstance(a, num) and isinstance(b, num) and not isinstance(a, str):
         if not is_sym(a) and not is_sym(b):
